@@ -79,6 +79,13 @@ func (d *DebugDialer) Dial(ctx context.Context, urlstr string) (conn net.Conn, b
 
 		onResponse(p[:n])
 
+		if br == nil && err == nil && len(p) > h {
+			// Dialer has consumed exactly the response head and returned no
+			// buffer, but some bytes sent by the server right after the head
+			// were already prefetched from the connection. Hand them over in
+			// a new buffer to not lose them.
+			br = bufio.NewReader(conn)
+		}
 		if br != nil {
 			// If br is non-nil, then it mean two things. First is that
 			// handshake is OK and server has sent additional bytes – probably
